@@ -8,10 +8,10 @@
  ->  harness/drivers/c08.py   every TLC-generated case through the REAL type_infer (+ seeded random, + library corpus)
  T  spec/C08_InferTrace.tla   TLC judges every real outcome (GoodResult, ErasureRecovers, OwnError, Terminates)
 
-The two model parameters FinalOccursCheck / AnnotVarCheck make the algorithm model mirror the code that is present.  They are
+The two model parameters ExactOccursCheck / AnnotVarCheck make the algorithm model mirror the code that is present.  They are
 set from a BEHAVIOURAL probe (two skeletons through the real type_infer: "own error" => TRUE), not by reading the source:
 the model-level verdict (design violation) is then confirmed or refuted on the real code by the events, which TLC judges
-independently of the parameters (the Terminates clause uses the model WITHOUT the final check as the explanation).
+independently of ExactOccursCheck (the Terminates clause uses the AS-FOUND model, cached reach sets, as the explanation).
 """
 import copy
 import json
@@ -50,8 +50,10 @@ def _conj(a, b):
 
 NAT = ["tc", "nat", []]
 BOOL = ["tc", "bool", []]
-# (x0 x1) & (x1 x2) & (x2 x0): the three-call cycle that TLC finds on the I specification
-PROBE_CYCLE = _conj(["comb", _xv(0), _xv(1)], _conj(["comb", _xv(1), _xv(2)], ["comb", _xv(2), _xv(0)]))
+# (x0 x1) & (x1 x2) & (x2 x0) & x0 = x2: the three-call cycle that TLC finds on the I specification, followed by a
+# unification that walks through it (a check of the final binding alone would come too late for this one)
+PROBE_CYCLE = _conj(["comb", _xv(0), _xv(1)], _conj(["comb", _xv(1), _xv(2)], _conj(["comb", _xv(2), _xv(0)],
+                    ["comb", ["comb", _c0("equals"), _xv(0)], _xv(2)])))
 # x0 & (x0::nat) = 0: one variable used at two types, one occurrence annotated
 PROBE_ANNOT = _conj(_xv(0), ["comb", ["comb", _c0("equals"), _xv(0, NAT)], _c0("zero")])
 
@@ -70,15 +72,16 @@ def _cfg_with(src, dst, repl):
     return dst
 
 
-def _params(foc, avc):
-    return [("FinalOccursCheck = TRUE", "FinalOccursCheck = %s" % ("TRUE" if foc else "FALSE")),
+def _params(eoc, avc):
+    return [("ExactOccursCheck = TRUE", "ExactOccursCheck = %s" % ("TRUE" if eoc else "FALSE")),
             ("AnnotVarCheck = TRUE", "AnnotVarCheck = %s" % ("TRUE" if avc else "FALSE"))]
 
 
-def _model_runs(rep, cfg, wd, foc, avc, workers):
+def _model_runs(cfg, wd, eoc, avc, workers):
     """Model-check the algorithm model (parameters mirroring the code) against the contract.  TLC stops at the first
     violated invariant, so the run is repeated without the invariants already seen violated."""
     invs = ["ModelTerminates", "ModelGoodResult", "ModelErasure"]
+    wd.mkdir(parents=True, exist_ok=True)
     violated, last = [], None
     for rnd in range(len(invs)):
         todo = [i for i in invs if i not in violated]
@@ -86,7 +89,7 @@ def _model_runs(rep, cfg, wd, foc, avc, workers):
         s = (SPEC / cfg).read_text()
         for i in violated:
             s = s.replace("INVARIANT %s\n" % i, "")
-        for a, b in _params(foc, avc):
+        for a, b in _params(eoc, avc):
             s = s.replace(a, b)
         c.write_text(s)
         r = model_check("C08_Infer", c, wd=wd / ("mc_model_%d" % rnd), workers=workers, timeout=7200)
@@ -101,71 +104,73 @@ def _model_runs(rep, cfg, wd, foc, avc, workers):
 def run(rep, tier):
     quick = tier == "quick"
     wd = work_dir(PID, "run", clean=True)
-    size = "small" if quick else "deep"
-    rep.rule = ("TLC explores (a) all sequences of <= %s unify calls over %s internal type variables and {bool, fun, list} on the "
-                "as-coded union-find machine, (b) all well-typed terms within %s growth steps over a 20-constant signature "
-                "(overloaded arithmetic, polymorphic constants, higher-order and schematic variables, nested binders), each "
-                "erased under {none, vars, consts+binders, all} with variables declared / undeclared, and all constraint "
-                "conjunctions of <= %s atoms over x0..x%s in canonical variable order (cycles of every length through fun "
-                "and list, one variable at two types, annotated occurrences); every case goes through the real type_infer, "
-                "plus seeded random deeper terms with per-occurrence erasure masks and long random conjunctions%s. "
+    sizes = ["small"] if quick else ["deep", "cyc"]
+    rep.rule = ("TLC explores (a) all sequences of unify calls (%s) over internal type variables and {bool, fun, list} on the "
+                "as-coded union-find machine, (b) all well-typed terms within %s growth steps (size <= %s) over a 20-constant "
+                "signature (overloaded arithmetic, polymorphic constants, higher-order and schematic variables, nested binders), "
+                "each erased under {none, vars, consts+binders, all} with variables declared / undeclared, and all constraint "
+                "conjunctions of <= %s atoms over x0..x%s in canonical variable order (cycles of every length through fun and "
+                "list in every unification order, one variable at two types, annotated occurrences); every case goes through the "
+                "real type_infer, plus seeded random deeper terms with per-occurrence erasure masks and long random conjunctions%s. "
                 "Non-trivial = a returned term judged clause by clause, or an erasure of a well-typed term, or an "
                 "error/rejection that the algorithm model accounts for; distinct by (skeleton, context, outcome)."
-                % ((("3", "3", "2", "3", "2") if quick else ("4 (3 with 4 variables)", "3", "3", "4", "3"))
-                   + ("" if quick else ", plus the erased statements of the library theorems of theory real",)))
+                % (("<= 3 calls, 3 variables", "2", "7", "3", "2", "") if quick else
+                   ("<= 4 calls with 3 variables, <= 3 calls with 4 variables", "3", "8", "4", "3",
+                    ", plus the erased statements of the theorems of the library theory real")))
     rep.assumptions = ["TLC/SANY, the structural codec (harness/codec.py + the None-tolerant variant in the driver), CPython",
                        "constants are looked up in the loaded theory 'real' (logic_base .. real); context.ctxt.defs is empty",
                        "forbid_internal=True (the default used by the parser); infer_printed_type is not examined",
                        "a call is given 5 s (median < 1 ms); RecursionError/MemoryError/timeout count as a violation only when the "
-                       "as-coded model accepts a cyclic binding for the same skeleton (DESIGN section 4 rule 5)"]
+                       "as-found algorithm model accepts a cyclic binding for the same skeleton (DESIGN section 4 rule 5)"]
 
     _log("start")
-    # ---- 1. S: the input space (vectors) -- in the background; meanwhile the probe
-    vec = wd / "vectors.ndjson"
     ex = ThreadPoolExecutor(max_workers=4)
-    f_gen = ex.submit(model_check, "C08_Infer", "C08_Infer_%s_gen.cfg" % size, wd=wd / "mc_gen", workers=1,
-                      env={"VECTOR_FILE": vec}, timeout=7200, xmx="6g")
+    # ---- 1. S: the input space (vectors) -- in the background; meanwhile the probe
+    f_gen = [(z, ex.submit(model_check, "C08_Infer", "C08_Infer_%s_gen.cfg" % z, wd=wd / ("mc_gen_" + z), workers=1,
+                           env={"VECTOR_FILE": wd / ("vectors_%s.ndjson" % z)}, timeout=7200, xmx="6g")) for z in sizes]
     pv = wd / "probe_vectors.ndjson"
     write_events(pv, probe_vectors())
     run_driver("c08", ["replay", pv, wd / "probe.ndjson"])
     probe = {e["keep"]: e for e in read_events(wd / "probe.ndjson")}
-    foc = probe["cycle"]["outcome"] == "own"
+    eoc = probe["cycle"]["outcome"] == "own"
     avc = probe["annot"]["outcome"] == "own"
-    rep.notes["probe"] = {"FinalOccursCheck": foc, "AnnotVarCheck": avc,
+    rep.notes["probe"] = {"ExactOccursCheck": eoc, "AnnotVarCheck": avc,
                           "cycle_outcome": probe["cycle"]["outcome"] + ":" + (probe["cycle"]["cls"] or probe["cycle"]["err"]),
                           "annot_outcome": probe["annot"]["outcome"] + ":" + (probe["annot"]["cls"] or probe["annot"]["err"])}
-    tenv = {"C08_FOC": "TRUE" if foc else "FALSE", "C08_AVC": "TRUE" if avc else "FALSE"}
+    tenv = {"C08_EOC": "TRUE" if eoc else "FALSE", "C08_AVC": "TRUE" if avc else "FALSE"}
     _log("probe done: %s" % rep.notes["probe"])
 
-    # ---- 2. I: the unify machine as coded, parameters mirroring the code
-    icfgs = ["C08_InferImpl_small.cfg"] if quick else ["C08_InferImpl_small.cfg", "C08_InferImpl_deep.cfg", "C08_InferImpl_wide.cfg"]
+    # ---- 2. I: the unify machine as coded, parameter mirroring the code
+    icfgs = ["C08_InferImpl_small.cfg"] if quick else ["C08_InferImpl_list.cfg", "C08_InferImpl_deep.cfg", "C08_InferImpl_wide.cfg"]
     f_impl = []
     for c in icfgs:
-        dst = _cfg_with(c, wd / c, _params(foc, avc)[:1])
+        dst = _cfg_with(c, wd / c, _params(eoc, avc)[:1])
         f_impl.append((c, ex.submit(model_check, "C08_InferImpl", dst, wd=wd / ("mc_" + c[:-4]), workers=2, timeout=7200)))
 
-    r = f_gen.result()
-    rep.add_mc("C08_Infer(gen)", r, "C08_Infer_%s_gen.cfg" % size)
-    if r.violated:
-        rep.design_violation("C08_Infer", r)
-        return
-    require(vec.exists() and vec.stat().st_size > 0, "C08_Infer did not emit vectors")
+    allvec = wd / "all_vectors.ndjson"
+    nvec = 0
+    with open(allvec, "w") as f:
+        f.write(pv.read_text())
+        for z, fut in f_gen:
+            r = fut.result()
+            rep.add_mc("C08_Infer(gen)", r, "C08_Infer_%s_gen.cfg" % z)
+            if r.violated:
+                rep.design_violation("C08_Infer", r)
+                return
+            vec = wd / ("vectors_%s.ndjson" % z)
+            require(vec.exists() and vec.stat().st_size > 0, "C08_Infer (%s) did not emit vectors" % z)
+            txt = vec.read_text()
+            nvec += txt.count("\n")
+            f.write(txt)
     rep.exhaustive = True
-    nvec = sum(1 for _ in open(vec))
     _log("vectors: %d" % nvec)
     rep.notes["vectors"] = nvec
 
     # ---- 3. S+model: the algorithm model against the contract (in the background), spec -> code replay meanwhile
-    f_model = ex.submit(_model_runs, rep, "C08_Infer_%s_model.cfg" % size, wd, foc, avc, 2)
-    ev_replay = wd / "replay.ndjson"
-    allvec = wd / "all_vectors.ndjson"
-    with open(allvec, "w") as f:
-        f.write(pv.read_text())
-        f.write(vec.read_text())
-    jobs = [ex.submit(run_driver, "c08", ["replay", allvec, ev_replay])]
-    ev_rand = wd / "random.ndjson"
-    jobs.append(ex.submit(run_driver, "c08", ["random", 1500 if quick else 40000, ev_rand, seed()]))
-    ev_corpus = wd / "corpus.ndjson"
+    f_model = [(z, ex.submit(_model_runs, "C08_Infer_%s_model.cfg" % z, wd / ("model_" + z), eoc, avc, 2)) for z in sizes]
+    ev_replay, ev_rand, ev_corpus = wd / "replay.ndjson", wd / "random.ndjson", wd / "corpus.ndjson"
+    jobs = [ex.submit(run_driver, "c08", ["replay", allvec, ev_replay]),
+            ex.submit(run_driver, "c08", ["random", 1500 if quick else 40000, ev_rand, seed()])]
     if not quick:
         jobs.append(ex.submit(run_driver, "c08", ["corpus", ev_corpus, 100000, seed()]))
     for j in jobs:
@@ -174,16 +179,17 @@ def run(rep, tier):
 
     for c, f in f_impl:
         ri = f.result()
-        rep.add_mc("C08_InferImpl", ri, "%s FinalOccursCheck=%s" % (c, foc))
+        rep.add_mc("C08_InferImpl", ri, "%s ExactOccursCheck=%s" % (c, eoc))
         if ri.violated:
             rep.design_violation("C08_InferImpl", ri)
     _log("I done")
-    rm, violated = f_model.result()
-    _log("model done: violated=%s" % violated)
-    rep.add_mc("C08_Infer(model)", rm, "C08_Infer_%s_model.cfg FinalOccursCheck=%s AnnotVarCheck=%s" % (size, foc, avc))
-    if violated:
-        rm.violated = violated
-        rep.design_violation("C08_Infer", rm)
+    for z, f in f_model:
+        rm, violated = f.result()
+        _log("model %s done: violated=%s" % (z, violated))
+        rep.add_mc("C08_Infer(model)", rm, "C08_Infer_%s_model.cfg ExactOccursCheck=%s AnnotVarCheck=%s" % (z, eoc, avc))
+        if violated:
+            rm.violated = violated
+            rep.design_violation("C08_Infer", rm)
 
     # ---- 4. T: every real outcome judged by TLC
     traces = [("replay", ev_replay), ("random", ev_rand)] + ([] if quick else [("corpus", ev_corpus)])
@@ -204,21 +210,23 @@ def run(rep, tier):
 
     # ---- 5. specification mutants (the oracle is not vacuous)
     _log("mutants")
-    spec_mutant(rep, "no_final_occurs_check", "C08_InferImpl", "C08_InferImpl_small.cfg",
-                [("C08_InferImpl_small.cfg", "FinalOccursCheck = TRUE", "FinalOccursCheck = FALSE")],
+    spec_mutant(rep, "occurs_check_on_cached_reach_sets", "C08_InferImpl", "C08_InferImpl_small.cfg",
+                [("C08_InferImpl_small.cfg", "ExactOccursCheck = TRUE", "ExactOccursCheck = FALSE")],
                 ["AcyclicOrRejected"], wd=wd, workers=2)
-    spec_mutant(rep, "comb_argument_not_unified", "C08_Infer", "C08_Infer_small_model.cfg",
-                [("C08_InferAlgo.tla", "ELSE IF IsFun(rf.T) THEN R(Unify(ra.s, rf.T[3][1], ra.T), t2, rf.T[3][2])",
-                  "ELSE IF IsFun(rf.T) THEN R(ra.s, t2, rf.T[3][2])")], ["ModelGoodResult"], wd=wd, workers=2)
+    spec_mutant(rep, "unify_second_representative_forgotten", "C08_Infer", "C08_Infer_small_model.cfg",
+                [("C08_InferAlgo.tla", "LET T1 == Rep(s, A1)  T2 == Rep(s, A2) IN", "LET T1 == Rep(s, A1)  T2 == A2 IN")],
+                ["ModelGoodResult"], wd=wd, workers=2)
     if not quick:
         spec_mutant(rep, "union_without_occurs_test", "C08_InferImpl", "C08_InferImpl_small.cfg",
-                    [("C08_InferAlgo.tla", "IN IF \\E k \\in hit : (k - 1) \\in nr THEN Fail(s, \"loop\")",
-                      "IN IF FALSE THEN Fail(s, \"loop\")"),
-                     ("C08_InferImpl_small.cfg", "FinalOccursCheck = TRUE", "FinalOccursCheck = FALSE")],
-                    ["AcyclicOrRejected", "Flat", "UnifierOK"], wd=wd, workers=2)
+                    [("C08_InferAlgo.tla", "IN IF \\E k \\in hit : (k - 1) \\in use THEN Fail(s, \"loop\")",
+                      "IN IF FALSE THEN Fail(s, \"loop\")")],
+                    ["AcyclicOrRejected"], wd=wd, workers=2)
         spec_mutant(rep, "declared_type_ignored", "C08_Infer", "C08_Infer_small_model.cfg",
                     [("C08_InferAlgo.tla", "isdecl == ~given /\\ t[2] \\in Keys(decl)", "isdecl == FALSE")],
                     ["ModelGoodResult", "ModelErasure"], wd=wd, workers=2)
+        spec_mutant(rep, "annotated_occurrences_not_tied", "C08_Infer", "C08_Infer_small_model.cfg",
+                    [("C08_Infer_small_model.cfg", "AnnotVarCheck = TRUE", "AnnotVarCheck = FALSE")],
+                    ["ModelGoodResult"], wd=wd, workers=2)
     ex.shutdown()
     _log("end")
 
@@ -310,7 +318,7 @@ def replay(path):
     run_driver("c08", ["replay", wd / "vec.ndjson", wd / "ev_all.ndjson"])
     evs = read_events(wd / "ev_all.ndjson")
     probe = {x["keep"]: x for x in evs[:2]}
-    tenv = {"C08_FOC": "TRUE" if probe["cycle"]["outcome"] == "own" else "FALSE",
+    tenv = {"C08_EOC": "TRUE" if probe["cycle"]["outcome"] == "own" else "FALSE",
             "C08_AVC": "TRUE" if probe["annot"]["outcome"] == "own" else "FALSE"}
     write_events(wd / "ev.ndjson", evs[2:])
     print("outcome now:", evs[2]["outcome"], evs[2]["cls"] or evs[2]["err"])
